@@ -25,6 +25,8 @@ func (d Domain) String() string {
 // (declarations, shared sub-term definitions, asserts).
 type Printer struct {
 	Dom      Domain
+	DefPrefix string                  // prefix of shared sub-term definition names (several printers in one script)
+	VarSuffix func(string) string     // optional renaming of variables (per thread instance)
 	Light    bool // RUF: emit only per-instance lemmas (used for path-feasibility queries; coarser but sound)
 	tf       *TF
 	out      strings.Builder
@@ -176,7 +178,7 @@ func (p *Printer) ref(t *Term) string {
 	}
 	s := p.render(t)
 	if len(t.Args) > 0 && (p.refs[t.ID] > 1 || len(s) > 400) {
-		n := fmt.Sprintf("t!%d", t.ID)
+		n := fmt.Sprintf("t!%s%d", p.DefPrefix, t.ID)
 		fmt.Fprintf(&p.out, "(define-fun %s () %s %s)\n", n, p.sortStr(t.S), s)
 		p.names[t.ID] = n
 		return n
@@ -200,11 +202,15 @@ func (p *Printer) nary(op string, t *Term) string {
 func (p *Printer) render(t *Term) string {
 	switch t.Op {
 	case OVar:
-		p.declare(t.Name, nil, t.S)
-		if t.S.K == KFloat && p.Dom == DomRUF {
-			p.ruf.noteVar(p, t)
+		name := t.Name
+		if p.VarSuffix != nil {
+			name = p.VarSuffix(name)
 		}
-		return smtName(t.Name)
+		p.declare(name, nil, t.S)
+		if t.S.K == KFloat && p.Dom == DomRUF {
+			p.ruf.witnesses[smtName(name)] = true
+		}
+		return smtName(name)
 	case OConst:
 		switch t.S.K {
 		case KBool:
